@@ -666,6 +666,13 @@ theorem C04_margin_rule {ε m : Rat} (hε : 0 ≤ ε) (sel : Sel) (cfg : Cfg) (l
   unfold margin at hm ⊢
   grind
 
+/-- **C04_sepFast_eq**: the driver does not run `sepB` itself (it looks every candidate up by position -
+quadratic on lists, minutes for the candidate counts of the size classes) but the one-pass `sepFast`
+(`Spec/Beam.lean`); on every margin, candidate vector and selection the two are the same Boolean. What the
+driver reports as `sep` therefore IS the hypothesis `sepB` of `C04_topk_stable` / `tieFree`. -/
+theorem C04_sepFast_eq (m : Rat) (c : List Score) (inds : List Nat) :
+    sepFast m c inds = sepB m c inds := sepFast_eq m c inds
+
 /-! ### Non-vacuity of the stability theorems, and the margin cannot be dropped
 
 Second run: a language model with a different state type (the running SUM of the consumed tokens,
